@@ -12,6 +12,9 @@
 // kept. The model's fault prev-link puts one of them on the wire of the new
 // link; the plans that contain it are run on chains of 2-3 links of one pair
 // of routers (runOn / pair / succ) and judged by the same trace module.
+// Old links: a link may have a long past - link sequence numbers next to the
+// 2^32 wrap, where both ends change keys. The same plans are run on such links
+// (old.go: age, wrapTrack; the last pass of R) and judged by the same module.
 package main
 
 import (
@@ -25,12 +28,14 @@ import (
 	"sort"
 	"strings"
 	"sync"
+	"sync/atomic"
 	"time"
 
 	"github.com/mycoria/mycoria/config"
 	"github.com/mycoria/mycoria/frame"
 	"github.com/mycoria/mycoria/m"
 	"github.com/mycoria/mycoria/peering"
+	"github.com/mycoria/mycoria/state"
 
 	"verifharness/internal/linkworld"
 	"verifharness/internal/mesh"
@@ -58,6 +63,8 @@ var msgTypes = []frame.MessageType{frame.RouterPing, frame.RouterCtrl, frame.Rou
 type runner struct {
 	c   *vf.Ctx
 	rng *rand.Rand
+	nUnsync, lostUnsync int // old links: runs in which an unauthenticated unit made the receiver change keys early; frames lost in them
+	old *age // the links of the following runs are old (old.go); nil: young links, sequence numbers far from the wrap
 }
 
 // run sets up a real link, sends n frames from `dir` to its peer with the plan applied on the wire.
@@ -172,7 +179,22 @@ func (r *runner) runOn(sc *succ, plan []fault, dir string, n int, sizes []int, g
 	}
 	var reverse [][]byte // link frames of the opposite direction, as they crossed the wire
 	var revMu sync.Mutex
-	hook := func(p *linkworld.Proxy, m linkworld.Msg) [][]byte {
+	// old links (old.go): the link has a past - its sequence numbers are next to the 2^32 wrap
+	old := r.old
+	if sc != nil {
+		old = nil
+	}
+	h0 := 0 // frames the link carried right before the plan's frames (they are frames of this link like the others)
+	var wt *wrapTrack
+	var tapeAt atomic.Int32 // the attacker's tape (recorded frames of this link) is played in front of this frame
+	var tapeRng *rand.Rand
+	var histRec [][]byte
+	if old != nil {
+		h0 = old.hist
+		wt = newWrapTrack()
+		tapeRng = rand.New(rand.NewSource(r.rng.Int63()))
+	}
+	inner := func(p *linkworld.Proxy, m linkworld.Msg) [][]byte {
 		if m.Dir != dir && m.Idx > 3 {
 			revMu.Lock()
 			reverse = append(reverse, append([]byte(nil), m.Data...))
@@ -181,14 +203,24 @@ func (r *runner) runOn(sc *succ, plan []fault, dir string, n int, sizes []int, g
 		if m.Dir != dir || m.Idx <= 3 {
 			return nil
 		}
-		k := m.Idx - 3
+		k := m.Idx - 3 - h0
 		data := m.Data
-		if scale > 1 {
+		if k <= 0 {
+			// the recent past of an old link: it crosses the wire untouched, the attacker keeps it
+			histRec = append(histRec, append([]byte(nil), data...))
+			wt.genuine(data, m.Idx-3)
+			return nil
+		}
+		if scale > 1 && old != nil && k > n*scale {
+			k = n + (k - n*scale) // what follows the plan's frames is not scaled
+		} else if scale > 1 {
 			if (k-1)%scale != 0 {
+				wt.genuine(data, 0)
 				return [][]byte{} // filler frames never reach the receiver
 			}
 			k = (k-1)/scale + 1
 		}
+		wt.genuine(data, h0+k)
 		copies[k] = append([]byte(nil), data...)
 		if swallow[k] {
 			return [][]byte{}
@@ -235,6 +267,9 @@ func (r *runner) runOn(sc *succ, plan []fault, dir string, n int, sizes []int, g
 				g := make([]byte, garbageLen)
 				r.rng.Read(g)
 				g[0], g[1] = byte(len(g)>>8), byte(len(g))
+				if old != nil {
+					old.forgeSeq(g, data, r.rng) // a made-up frame carries the clear sequence number its maker likes
+				}
 				out = append([][]byte{g}, out...)
 			case "reflect":
 				revMu.Lock()
@@ -253,6 +288,33 @@ func (r *runner) runOn(sc *succ, plan []fault, dir string, n int, sizes []int, g
 		for _, id := range replayAfter[k] {
 			if c := copies[id]; c != nil {
 				out = append(out, append([]byte(nil), c...))
+			}
+		}
+		if old != nil && int(tapeAt.Load()) == k {
+			// the tape: frames of this link recorded earlier (the recent past and the plan's frames), oldest first
+			pool := append([][]byte(nil), histRec...)
+			for id := 1; id < k; id++ {
+				if c := copies[id]; c != nil {
+					pool = append(pool, c)
+				}
+			}
+			var tape [][]byte
+			for i, c := range pool {
+				if tapeRng.Intn(len(pool)-i) < old.tape-len(tape) {
+					tape = append(tape, append([]byte(nil), c...))
+				}
+			}
+			out = append(tape, out...)
+		}
+		return out
+	}
+	hook := func(p *linkworld.Proxy, m linkworld.Msg) [][]byte {
+		out := inner(p, m)
+		if wt != nil && m.Dir == dir && m.Idx > 3 {
+			if out == nil {
+				wt.wire([][]byte{m.Data})
+			} else {
+				wt.wire(out)
 			}
 		}
 		return out
@@ -295,10 +357,31 @@ func (r *runner) runOn(sc *succ, plan []fault, dir string, n int, sizes []int, g
 	if dir == "B" {
 		peerLink = res.LinkA
 	}
+	if old != nil {
+		// the link is old: both ends have sealed almost 2^32 link frames (or a multiple) for each other. Nobody can wait
+		// for 4 billion frames, so the out counters of the two real link sessions are moved (state's exported test
+		// helper); the receiving ends follow with the first frames they are sent, as they would have on the way there.
+		desc["old"] = old.describe()
+		sa, errA := linkSession(link)
+		sb, errB := linkSession(peerLink)
+		if errA != nil || errB != nil {
+			r.c.Broken("old link: the link session of a real link cannot be reached: %v %v", errA, errB)
+			for _, l := range []peering.Link{res.LinkA, res.LinkB} {
+				l.Close(nil)
+			}
+			res.Proxy.Close()
+			return nil, desc
+		}
+		(&state.EncryptionSessionTestHelper{EncryptionSession: sa}).ReglSetOut(uint32(0) - old.off - 1)
+		if old.revOff > 0 {
+			(&state.EncryptionSessionTestHelper{EncryptionSession: sb}).ReglSetOut(uint32(0) - old.revOff - 1)
+		}
+	}
 	events = append(events, map[string]any{"ev": "link"})
 	var revHanded [][]byte // frames handed to the link's opposite direction
+	var revEvents []any    // old links: what the opposite (undisturbed) direction delivered, a trace segment of its own
 	for _, f := range append([]fault{{Op: "successor"}}, plan...) {
-		if f.Op != "reflect" && !(f.Op == "successor" && sc != nil) {
+		if f.Op != "reflect" && !(f.Op == "successor" && (sc != nil || old != nil)) {
 			continue
 		}
 		// the receiver has traffic of its own (always when the routers may meet again: the attacker records both directions): n+4 frames in the opposite direction, recorded on the wire; their
@@ -326,6 +409,27 @@ func (r *runner) runOn(sc *succ, plan []fault, dir string, n int, sizes []int, g
 		if res.Proxy.NSent(otherDir) < 3+n+4 {
 			r.c.Broken("%s: the opposite direction carried only %d link frames", f.Op, res.Proxy.NSent(otherDir)-3)
 		}
+		if old != nil {
+			// nothing disturbs that direction: each of its frames arrives, once and unchanged - also when its sequence
+			// numbers wrap on the way (revOff < n+4)
+			back := da
+			if dir == "B" {
+				back = db
+			}
+			back.WaitN(len(revHanded), 1500*time.Millisecond)
+			revEvents = append(revEvents, map[string]any{"ev": "link"})
+			for _, g := range back.Take() {
+				id := 0
+				for i, s := range revHanded {
+					if bytes.Equal(g, s) {
+						id = i + 1
+					}
+				}
+				revEvents = append(revEvents, map[string]any{"ev": "delivered", "id": id, "identical": id != 0, "note": "opposite direction of the link"})
+			}
+			revEvents = append(revEvents, map[string]any{"ev": "end", "sent": len(revHanded), "touched": []int{}, "breaks": false, "unsync": false,
+				"closed": link.IsClosing() || peerLink.IsClosing(), "stalled": false, "resumed": false, "clear": false, "note": "opposite direction of the link"})
+		}
 		break
 	}
 	dirty := len(plan) == 0 || r.rng.Intn(3) == 0
@@ -336,6 +440,7 @@ func (r *runner) runOn(sc *succ, plan []fault, dir string, n int, sizes []int, g
 	var sent [][]byte
 	var payloads [][]byte
 	bigMode := false
+	smallMode := false
 	noProgress := 0
 	realSent := 0
 	filler := false
@@ -343,6 +448,9 @@ func (r *runner) runOn(sc *succ, plan []fault, dir string, n int, sizes []int, g
 		size := sizes[i%len(sizes)]
 		if bigMode {
 			size = 10000
+		}
+		if smallMode {
+			size = 24 + i%40
 		}
 		mt := msgTypes[(i+len(plan))%len(msgTypes)]
 		if scale > 1 {
@@ -354,7 +462,7 @@ func (r *runner) runOn(sc *succ, plan []fault, dir string, n int, sizes []int, g
 		payload := make([]byte, size)
 		r.rng.Read(payload)
 		var apx []byte
-		if i%3 == 2 || bigMode {
+		if (i%3 == 2 || bigMode) && !smallMode {
 			apx = make([]byte, sizes[(i+1)%len(sizes)])
 			if bigMode {
 				apx = make([]byte, 10000)
@@ -411,6 +519,13 @@ func (r *runner) runOn(sc *succ, plan []fault, dir string, n int, sizes []int, g
 			noProgress = 0
 		}
 	}
+	if old != nil {
+		// the recent past: h0 frames that cross the wire untouched and put the receiver where the sender is
+		for i := 0; i < h0; i++ {
+			send(i)
+		}
+		drain.WaitN(h0, 400*time.Millisecond)
+	}
 	for i := 0; i < n; i++ {
 		send(i)
 		if scale > 1 {
@@ -424,6 +539,11 @@ func (r *runner) runOn(sc *succ, plan []fault, dir string, n int, sizes []int, g
 	if held != nil { // a swap at the last frame: release it with one more frame
 		send(n)
 	}
+	if old != nil && old.tape > 0 {
+		// one more frame; in front of it the attacker plays its tape
+		tapeAt.Store(int32(len(sent) - h0 + 1))
+		send(len(sent))
+	}
 	breaks := false
 	touched := []int{}
 	lastFault := 0
@@ -432,13 +552,17 @@ func (r *runner) runOn(sc *succ, plan []fault, dir string, n int, sizes []int, g
 			breaks = true
 		}
 		if f.Op != "dup" && f.Op != "garbage-framed" && f.Op != "garbage-raw" && f.Op != "swap" && f.Op != "reflect" && f.Op != "prev-link" {
-			touched = append(touched, f.At)
+			touched = append(touched, h0+f.At)
 		}
-		if f.At > lastFault {
-			lastFault = f.At
+		if h0+f.At > lastFault {
+			lastFault = h0 + f.At
 		}
 	}
 	time.Sleep(30 * time.Millisecond)
+	unsync, late := wt.result()
+	// a frame sealed before the sender's wrap that reaches the receiver behind a frame sealed after it belongs to a key the
+	// receiver has left: reordering across the wrap is outside the claim (C15), such a frame counts as touched
+	touched = append(touched, late...)
 	closed := peerLink.IsClosing()
 	resumed := false
 	check := func() {
@@ -465,8 +589,26 @@ func (r *runner) runOn(sc *succ, plan []fault, dir string, n int, sizes []int, g
 		check()
 		closed = peerLink.IsClosing() || link.IsClosing()
 	}
+	if unsync && !breaks {
+		// a well-framed unit that nobody authenticated carried a clear sequence number <= 255 while the receiver was within
+		// 256 of the wrap: In() takes it for the sender's wrap and moves to the next key before it looks at the MAC (known,
+		// DESIGN 5 "ForgedTrigger"). What the sender seals until its own wrap is lost, then the two agree again - or the
+		// reader has counted 100 bad frames and closed the link. Judged like a framing break: closed, or deliveries resume.
+		smallMode = true
+		for k := 0; k < 400 && !closed && !resumed && noProgress < 4 && !link.IsClosing(); k++ {
+			send(len(sent))
+			if k%10 == 9 {
+				time.Sleep(2 * time.Millisecond)
+				check()
+				closed = peerLink.IsClosing()
+			}
+		}
+		time.Sleep(50 * time.Millisecond)
+		check()
+		closed = peerLink.IsClosing() || link.IsClosing()
+	}
 	stalled := false
-	if !breaks && !closed {
+	if !breaks && !unsync && !closed {
 		// every untouched frame must arrive: give the reader a moment, then look
 		drain.WaitN(len(sent)-len(touched), 400*time.Millisecond)
 	}
@@ -494,7 +636,7 @@ func (r *runner) runOn(sc *succ, plan []fault, dir string, n int, sizes []int, g
 		}
 		events = append(events, dv)
 	}
-	if breaks && !closed && !resumed {
+	if (breaks || unsync) && !closed && !resumed {
 		stalled = true
 	}
 	// clear text on the wire after the handshake?
@@ -515,9 +657,23 @@ func (r *runner) runOn(sc *succ, plan []fault, dir string, n int, sizes []int, g
 	if touched == nil {
 		touched = []int{}
 	}
-	events = append(events, map[string]any{"ev": "end", "sent": len(sent), "touched": touched, "breaks": breaks, "closed": closed,
+	events = append(events, map[string]any{"ev": "end", "sent": len(sent), "touched": touched, "breaks": breaks, "unsync": unsync, "closed": closed,
 		"stalled": stalled, "resumed": resumed, "clear": clear})
+	events = append(events, revEvents...)
 	desc["sent"] = len(sent)
+	if old != nil {
+		desc["unsync"] = unsync
+		if unsync {
+			r.nUnsync++
+			nGot := 0
+			for _, e := range events {
+				if m, ok := e.(map[string]any); ok && m["ev"] == "delivered" && m["note"] == nil {
+					nGot++
+				}
+			}
+			r.lostUnsync += len(sent) - nGot
+		}
+	}
 	if sc != nil {
 		// the link goes down in one of three ways; the attacker keeps what the two ends sealed
 		switch sc.closeBy {
@@ -619,8 +775,9 @@ func drainPeek(d *linkworld.Drain) [][]byte {
 func main() { vf.Main("C05", "model_checking", run) }
 
 func run(c *vf.Ctx) {
-	c.Rule("M: TLC exhaustive: 4 frames, every placement of <= 2 faults out of {flip header / body / MAC / length, truncate, duplicate, swap, drop, well-framed garbage, raw garbage}, reader with replay window and close threshold. R: every distinct fault plan of the model graph (quick: seeded sample of 120; thorough: all) applied by a proxy to the real link frames of a real link, both directions, frames of all 6 message types with sizes 1..10000 (+ appendices), well-framed garbage of lengths 4..100; after framing-breaking faults up to 600 more frames of ~20 kB (12 MB) are sent. Successor links: the model's plans that contain prev-link (a link frame recorded on an earlier link between the same two routers, sealed by either end, alone or with a second fault) on chains of 2-3 real links between one pair of router stacks that is never restarted (quick: every single plan in both directions + a seeded sample, 28 chains; thorough: all), with who dials, how the earlier links ended and which record comes back varied. T: deliveries, closing state and wire capture judged by TLC. distinct = distinct (plan, direction, garbage length)")
-	c.Assume("ChaCha20-Poly1305 unforgeable", "'keeps arriving or closed' is judged after at most 600 further frames of ~20 kB (12 MB) and 50 ms")
+	c.Rule("M: TLC exhaustive: 4 frames, every placement of <= 2 faults out of {flip header / body / MAC / length, truncate, duplicate, swap, drop, well-framed garbage, raw garbage}, reader with replay window and close threshold. R: every distinct fault plan of the model graph (quick: seeded sample of 120; thorough: all) applied by a proxy to the real link frames of a real link, both directions, frames of all 6 message types with sizes 1..10000 (+ appendices), well-framed garbage of lengths 4..100; after framing-breaking faults up to 600 more frames of ~20 kB (12 MB) are sent. Successor links: the model's plans that contain prev-link (a link frame recorded on an earlier link between the same two routers, sealed by either end, alone or with a second fault) on chains of 2-3 real links between one pair of router stacks that is never restarted (quick: every single plan in both directions + a seeded sample, 28 chains; thorough: all), with who dials, how the earlier links ended and which record comes back varied. Old links: the model's plans on real links whose link sequence numbers are next to the 2^32 wrap where both ends change keys (out counters of the two real link sessions moved after the handshake, 2-4 untouched frames of recent past take the receiver there): the wrap behind the plan's frames / inside them / inside the recent past / the receiver entering the last 256 numbers during the plan; the opposite direction young, old or wrapping, judged as well; well-framed garbage with a chosen clear sequence number (<= 255 as after a wrap, the next genuine one, one of the last 256, random); a tape of 0-3 recorded frames of the link played back at the end; undisturbed crossings, every position of one made-up frame, seeded samples of single and two-fault plans, window-scaled plans (quick: ~80 links; thorough: all single plans, 600 two-fault plans, all scaled plans). T: deliveries, closing state and wire capture judged by TLC. distinct = distinct (plan, direction, garbage length)")
+	c.Assume("ChaCha20-Poly1305 unforgeable", "'keeps arriving or closed' is judged after at most 600 further frames of ~20 kB (12 MB) and 50 ms",
+		"old links: a link that has carried almost 2^32 frames is emulated by moving the out counters of its real link sessions (state.EncryptionSessionTestHelper) and letting the receivers follow; an unauthenticated unit with a clear sequence number <= 255 that reaches a receiver within 256 of the wrap makes the receiver change keys early (known, KeyRollover ForgedTrigger): frames up to the sender's wrap are lost - judged as 'closed or deliveries resume' within 400 further frames, reordering across the wrap counts as touching the late frame (C15)")
 
 	mc, err := c.TLC("LinkLayer", "LinkLayer_MC.cfg", vf.TLCOpts{Workers: 8, Coverage: true, Timeout: 10 * time.Minute})
 	if err != nil {
@@ -680,12 +837,13 @@ func run(c *vf.Ctx) {
 	var chainOf *succ // the link is one in the life of a pair of routers (successor links); nil: a fresh pair per link
 	// maintenance aid: VERIF_C05_ONLY=successor runs the successor-links pass alone; such a run is never a verdict (exit 2)
 	onlySucc := os.Getenv("VERIF_C05_ONLY") == "successor"
-	if onlySucc {
+	onlyOld := os.Getenv("VERIF_C05_ONLY") == "old" // the same for the old-links pass
+	if onlySucc || onlyOld {
 		keys = nil
-		defer c.Broken("VERIF_C05_ONLY=successor: only the successor-links pass was run")
+		defer c.Broken("VERIF_C05_ONLY=%s: only that pass was run", os.Getenv("VERIF_C05_ONLY"))
 	}
 	runOne := func(pl []fault, dir string, glen int, sizes []int) bool {
-		if onlySucc && chainOf == nil {
+		if (onlySucc && chainOf == nil) || (onlyOld && r.old == nil) {
 			return false
 		}
 		t0 := time.Now()
@@ -694,13 +852,22 @@ func run(c *vf.Ctx) {
 			return false
 		}
 		if d := time.Since(t0); d > 2*time.Second || os.Getenv("VERIF_C05_DEBUG") != "" {
-			c.Logf("link %v dir=%s glen=%d took %v: %v %v", pl, dir, glen, d.Round(time.Millisecond), ev[len(ev)-1], desc["prev_link_records"])
+			last := ev[len(ev)-1]
+			for _, e := range ev { // an old link has a second segment (its opposite direction): the end of the first is the link's
+				if m, ok := e.(map[string]any); ok && m["ev"] == "end" {
+					last = e
+					break
+				}
+			}
+			c.Logf("link %v dir=%s glen=%d took %v: %v %v %v", pl, dir, glen, d.Round(time.Millisecond), last, desc["prev_link_records"], desc["old"])
 		}
 		starts = append(starts, len(events))
 		descs = append(descs, desc)
 		events = append(events, ev...)
 		if chainOf != nil {
 			c.Distinct(fmt.Sprintf("%v|%s|%d|link %v dialled by %v|%v", pl, dir, glen, desc["link_no"], desc["dialler"], desc["prev_link_records"]))
+		} else if r.old != nil {
+			c.Distinct(fmt.Sprintf("%v|%s|%d|old %v", pl, dir, glen, desc["old"]))
 		} else {
 			c.Distinct(fmt.Sprintf("%v|%s|%d", pl, dir, glen))
 		}
@@ -808,6 +975,10 @@ func run(c *vf.Ctx) {
 	nChainLinks, nChains := 0, 0
 	tChains := time.Now()
 	for ci, ch := range chains {
+		if onlyOld {
+			nChains = len(chains)
+			break
+		}
 		pr := newPair()
 		nBefore := 1
 		if !ch.fixed && rng.Intn(3) == 0 {
@@ -855,6 +1026,101 @@ func run(c *vf.Ctx) {
 	c.Extra("successor_chains", nChains)
 	c.Extra("successor_chain_links", nChainLinks)
 	c.Logf("R: %d chains of successor links (%d links; the model has %d prev-link plans + %d with a second fault) in %v", nChains, nChainLinks, len(prevSingle), len(prevMulti), time.Since(tChains).Round(time.Millisecond))
+	// old links (old.go): the same fault plans on links whose sequence numbers are next to the 2^32 wrap
+	tOld := time.Now()
+	nOld := 0
+	oldRun := func(pl []fault, dir, class, gseq string, glen, n, scale int, sizes []int) {
+		r.old = pickAge(rng, class, gseq, n, scale)
+		nFrames, scaleOf = n, scale
+		if runOne(pl, dir, glen, sizes) {
+			nOld++
+			if nOld <= 2 {
+				c.Sample(descs[len(descs)-1])
+			}
+		}
+		r.old, nFrames, scaleOf = nil, 4, 1
+	}
+	AB := func(i int) string { return []string{"A", "B"}[i%2] }
+	classes := []string{"zone", "cross", "zone", "after", "cross", "edge"}
+	gseqs := []string{"low", "next", "low", "zone", "low", "rand"}
+	glens := []int{28, 100, 29, 64, 1200, 40, 27}
+	// (a) nothing on the wire is touched: traffic crosses the wrap (and plays the tape), both directions
+	for i := 0; i < c.Pick(4, 16); i++ {
+		oldRun(nil, AB(i), []string{"cross", "after", "cross", "zone"}[i%4], "low", 28, 5+rng.Intn(8), 1, sizeSets[i%3])
+	}
+	// (b) one made-up frame (well-framed garbage / a frame of the opposite direction) with each kind of clear sequence
+	// number, at every position, on links of every class
+	i := 0
+	for _, op := range []string{"garbage-framed", "reflect"} {
+		for at := 1; at <= 4; at++ {
+			for gi, gs := range []string{"low", "next", "zone", "rand"} {
+				if op == "reflect" && gi > 0 {
+					continue // the sequence number of a reflected frame is the opposite direction's
+				}
+				if !c.Thorough() && gi > 0 && (at+gi)%4 != 0 {
+					continue
+				}
+				for ci, cl := range []string{"zone", "cross", "edge", "after"} {
+					if !c.Thorough() && ci != (i+at)%4 && !(gi == 0 && ci == 0) {
+						continue
+					}
+					oldRun([]fault{{op, at, 0}}, AB(i), cl, gs, glens[i%len(glens)], 4, 1, sizeSets[i%3])
+					i++
+				}
+			}
+		}
+	}
+	// (c) the model's fault plans: every single-fault plan (quick: a seeded sample), a seeded sample of the two-fault
+	// plans, and of those two-fault plans that put a made-up frame next to a copy or a reordering
+	var oSingle, oMulti, oMix []string
+	for _, k := range allKeys {
+		pl := plans[k]
+		made, again := false, false
+		for _, f := range pl {
+			made = made || f.Op == "garbage-framed" || f.Op == "reflect"
+			again = again || f.Op == "dup" || f.Op == "replay-late" || f.Op == "swap"
+		}
+		switch {
+		case len(pl) == 1:
+			oSingle = append(oSingle, k)
+		case made && again:
+			oMix = append(oMix, k)
+		default:
+			oMulti = append(oMulti, k)
+		}
+	}
+	for _, ks := range [][]string{oSingle, oMulti, oMix} {
+		rng.Shuffle(len(ks), func(i, j int) { ks[i], ks[j] = ks[j], ks[i] })
+	}
+	for li, ks := range [][]string{oSingle, oMulti, oMix} {
+		lim := []int{c.Pick(14, 1000), c.Pick(10, 300), c.Pick(10, 300)}[li]
+		for j := 0; j < len(ks) && j < lim; j++ {
+			oldRun(plans[ks[j]], AB(i), classes[rng.Intn(len(classes))], gseqs[rng.Intn(len(gseqs))], glens[i%len(glens)], 4, 1, sizeSets[i%3])
+			i++
+		}
+	}
+	// (d) window-scaled: losses, copies and reorderings with 32 sequence numbers per model frame
+	nOldScaled := 0
+	for _, k := range allKeys {
+		only := true
+		for _, f := range plans[k] {
+			only = only && (f.Op == "drop" || f.Op == "dup" || f.Op == "swap" || f.Op == "replay-late")
+		}
+		if !only || (!c.Thorough() && rng.Intn(40) != 0) || nOldScaled >= c.Pick(6, 1000) {
+			continue
+		}
+		nOldScaled++
+		oldRun(plans[k], AB(i), []string{"zone", "cross", "cross", "edge"}[rng.Intn(4)], "low", 28, 4, 32, []int{40, 41, 42, 43})
+		i++
+	}
+	c.Extra("old_links", nOld)
+	c.Extra("old_links_receiver_changed_keys_early", r.nUnsync)
+	c.Extra("old_links_frames_lost_after_early_key_change", r.lostUnsync)
+	c.Logf("R: %d old links (sequence numbers next to the 2^32 wrap) in %v; in %d of them an unauthenticated unit with a small clear sequence number made the receiver change keys before the sender (%d genuine frames lost; judged as closed-or-resumed)",
+		nOld, time.Since(tOld).Round(time.Millisecond), r.nUnsync, r.lostUnsync)
+	if nOld == 0 {
+		c.Broken("old links: no link with sequence numbers next to the wrap could be run")
+	}
 	c.Stage("R", map[string]any{"links": len(descs), "events": len(events)})
 	c.Logf("R: %d links, %d events", len(descs), len(events))
 	base := 0
@@ -886,6 +1152,9 @@ func run(c *vf.Ctx) {
 			kind, what = "stalled", "after the fault the reader neither delivered later frames nor closed the link"
 		case ev["ev"] == "end":
 			kind, what = "frame-lost", "the framing was intact but an untouched frame never arrived"
+		}
+		if descs[ri]["old"] != nil {
+			what += " - on an OLD link: its link sequence numbers had been moved next to the 2^32 wrap (where sender and receiver change keys) before the frames of the plan were sent"
 		}
 		c.Violation(vf.Key(kind, planSig(descs[ri])), fmt.Sprintf("link %v: %s (%v)", descs[ri], what, ev), map[string]any{"link": descs[ri], "event": ev}, nil)
 		// skip to the next link
@@ -944,9 +1213,12 @@ func planSig(d map[string]any) string {
 	for _, f := range pl {
 		ops = append(ops, f.Op)
 	}
+	sort.Strings(ops)
+	if d["old"] != nil {
+		return "old-link/" + strings.Join(ops, "+")
+	}
 	if len(pl) == 1 && pl[0].Op == "garbage-framed" {
 		return fmt.Sprintf("garbage-framed-len-%v", d["garbage_len"])
 	}
-	sort.Strings(ops)
 	return strings.Join(ops, "+")
 }
